@@ -331,9 +331,7 @@ func checkWindow(t *testing.T, c WindowCase) (v harness.Verdict) {
 		v.Class("policy:reject-unexpired")
 	}
 	pool, trusted := trustFor(c.Chain, secsOf(c.Probes))
-	if c.Chain.Lone {
-		v.Class("chain:lone-root")
-	}
+	chainClasses(&v, c.Chain)
 	opts, err := windowOpts(w, pol, pool)
 	if err != nil {
 		v.Failf("ctfe-valid-window-refused", "ValidateLogConfig refuses window %v: %v", w, err)
